@@ -49,6 +49,10 @@ def generate(rng, tier):
     for g in (sc.gen_relay2, sc.gen_relay_twice, sc.gen_two_relays, sc.gen_pull_ring):
         for _ in range(4 if tier == "quick" else 60):
             cases.append(g(rng))
+    # metadata known only in the connect phase on both ends of several links (seeded C05_s): the run must still start,
+    # reach the end time and walk every life cycle once, whichever round exchanges which input
+    for _ in range(8 if tier == "quick" else 120):
+        cases.append(sc.gen_lazy_infos(rng))
     # finam's OWN components (generators, callback component, time trigger, debug consumer) with timedelta and CALENDAR
     # steps: run by the real driver, judged by the property monitor only (no Coq model of these classes)
     for _ in range(24 if tier == "quick" else 400):
